@@ -69,6 +69,7 @@ class Klass:
     def method(self, m_arg):
         m_local = 1
         return %s
+top_value = %s
 late_global = 5
 '''
 # (which hole, typed prefix, names that must be offered, later_locals)
@@ -78,6 +79,8 @@ PROBES = [
     (0, "coun", {"counter"}, True), (0, "pri", {"print"}, True), (0, "late_", {"late_global"}, True),
     (1, "m_", {"m_arg", "m_local"}, True), (1, "sel", {"self"}, True), (1, "compute_", {"compute_total", "compute_mean"}, False), (1, "Kla", {"Klass"}, True),
     (1, "o", {"os", "outer", "object", "open", "ord", "oct"}, True), (1, "class_", set(), True),
+    (2, "compute_", {"compute_total", "compute_mean"}, False), (2, "compute_", {"compute_total", "compute_mean"}, True), (2, "coun", {"counter"}, False),
+    (2, "late_", {"late_global"}, True), (2, "Kla", {"Klass"}, False), (2, "o", {"os", "outer"}, False),
 ]
 
 
@@ -114,10 +117,11 @@ def run_case(case):
         return {"status": "ok", "nontrivial": bool(props), "key": repr(case)}
     if kind == "probe":
         hole, prefix, must, later = PROBES[arg]
-        fill = ["0", "0"]
+        fill = ["0", "0", "0"]
         fill[hole] = prefix
         src = PROBE_MOD % tuple(fill)
-        off = src.index("return " + prefix) + 7 + len(prefix)
+        marker = ("return " if hole < 2 else "top_value = ") + prefix
+        off = src.index(marker) + len(marker)
         try:
             names = {pr.name for pr in _assist(p, src, off, later_locals=later)}
         except Exception as e:
